@@ -482,6 +482,20 @@ Theorem C18_put_fields_survive_json :
 Proof. exact put_fields_json_roundtrip. Qed.
 Print Assumptions C18_put_fields_survive_json.
 
+(* Put -> bytes -> Get.  PutCredential keeps json.Marshal(AuthConfig) in the cache
+   and the file holds the same text re-indented; GetCredential (also of a
+   re-opened store) json.Unmarshals it.  [entry_bytes] is that text,
+   [parse_fresh] the reading of its three fields: for every accepted credential
+   the bytes parse back to the entry and decode to the credential *)
+Theorem C18_entry_bytes_roundtrip :
+  forall a c,
+    put_accepts a c = true -> Forall (fun x => x < 256) (c_user c ++ colon :: c_pass c) ->
+    parse_fresh (entry_bytes b64_encode c) =
+      Some (encode_auth b64_encode (c_user c) (c_pass c), c_refresh c, c_access c) /\
+    cred_of_bytes b64_decode (entry_bytes b64_encode c) = RCred c.
+Proof. exact entry_bytes_roundtrip. Qed.
+Print Assumptions C18_entry_bytes_roundtrip.
+
 Theorem C18_invalid_utf8_refuted :
   exists s, valid_utf8 s = false /\ json_unquote (json_quote s) <> Some s.
 Proof. exact invalid_utf8_json_lossy. Qed.
